@@ -98,8 +98,10 @@ Section XLevel.
         do ip <- string_index pos;
         do inn <- string_index neg;
         let vp_idx := match ip with Some v => v | None => sem_optional_prop end in
-        (* pos_key (never or string) is a subtype of neg_key (string): the negative's index value, made optional, applies *)
-        do sub <- (do s <- sem_diff (match ip with Some _ => sem_string | None => sem_never end) sem_string; is_empty s);
+        (* pos_key (never or string) overlaps neg_key (string): the negative's index value, made optional, applies *)
+        do free <- minus_keys (match ip with Some _ => sem_string | None => sem_never end)
+                              (keys (xa_fields pos) ++ keys (xa_fields neg));
+        do sub <- (do s <- sem_intersect free sem_string; do disjoint <- is_empty s; Ok (negb disjoint));
         do vn_idx <- (if sub then make_optional (match inn with Some v => v | None => sem_unknown end) else Ok sem_unknown);
         do d <- sem_diff vp_idx vn_idx;
         do e <- is_empty d;
